@@ -33,7 +33,7 @@ PROPS["C03"] = dict(
     check_module="Htlc.Check",
     check_fn="check_case_C03",
     coq_shard=20,
-    streams=[dict(name="main", quick=320, thorough=800)],
+    streams=[dict(name="main", quick=320, thorough=6400)],
     rule=_RULE,
     codes={1: "htlc.state-machine", 2: "htlc.coins-moved-not-as-transitions-dictate", 3: "htlc.claim-iff-preimage",
            4: "htlc.refund-at-expiry", 5: "htlc.rejection-moved-something", 6: "htlc.duplicate-or-malformed-creation"},
@@ -55,7 +55,7 @@ PROPS["C04"] = dict(
     check_module="Htlc.Check",
     check_fn="check_case_C04",
     coq_shard=20,
-    streams=[dict(name="main", quick=320, thorough=800)],
+    streams=[dict(name="main", quick=320, thorough=6400)],
     rule=_RULE,
     codes={1: "htlc.escrow-ne-open-contracts", 2: "htlc.incoming-outgoing-ne-open-transfers",
            3: "htlc.current-ne-minted-minus-burned", 4: "htlc.limit-exceeded"},
